@@ -1,5 +1,5 @@
 """C05 -- a decoded instruction is determined by the bytes it consumes."""
-import json
+import json, itertools
 from amc import core, isas
 from amc.core import Failure, Report, exc_sig
 from amc.gen import specwords
@@ -79,7 +79,7 @@ def run_unit(args):
     for s in S[lo:hi]:
         seen = set()
         hook = getattr(s.hook, "__name__", "?")
-        for b in specwords.cases_for_spec(isa, s, e, d.maxlen, tier):
+        for b in itertools.chain(specwords.cases_for_spec(isa, s, e, d.maxlen, tier), specwords.prefixed_modrm_cases(isa, s, tier)):
             if b in seen or not b:
                 continue
             seen.add(b)
